@@ -11,6 +11,7 @@ import (
 	"encoding/json"
 	"fmt"
 	"math/big"
+	"strconv"
 
 	abci "github.com/cometbft/cometbft/abci/types"
 	sdk "github.com/cosmos/cosmos-sdk/types"
@@ -128,6 +129,7 @@ type TxOut struct {
 	Ret      []byte
 	VmError  string
 	Logs     []*ethtypes.Log
+	EvmGas   int64 // gas used according to the receipt event (before the minimum-gas rule of the fee market)
 	Panic    interface{}
 }
 
@@ -141,6 +143,10 @@ func DecodeEth(res *abci.ExecTxResult) (out TxOut) {
 			continue
 		}
 		for _, a := range ev.Attributes {
+			if a.Key == evmtypes.AttributeKeyReceiptGasUsed {
+				n, _ := strconv.ParseInt(a.Value, 10, 64)
+				out.EvmGas = n
+			}
 			if a.Key == evmtypes.AttributeKeyReceiptMarshalled {
 				rc := &ethtypes.Receipt{}
 				if err := rc.UnmarshalBinary(hexutil.MustDecode(a.Value)); err != nil {
